@@ -131,23 +131,51 @@ def add_affects(r, s, p=0.35):
     returns a hand-written unified diff that adds the first content line of each of them, so that
     each owes exactly one `affects` violation. Files must be re-rendered by the caller (done here)."""
     diff = []
+    # homonym: a satisfied cross-file link `affects="A:x"` while a block of another file B is also called x and is touched by the
+    # same diff (block names are only unique per file; the reference names file A)
+    forced = {}
+    if len(s.order) >= 2 and r.random() < 0.5:
+        pa, pb = r.sample(s.order, 2)
+        ca = [b for b in s.blocks[pa] if b.lines and not b.glued_to_prev and not any(a == "affects" for a, _ in b.attrs)]
+        cb = [b for b in s.blocks[pb] if b.lines and not b.glued_to_prev]
+        if len(ca) >= 2 and cb:
+            b, t = r.sample(ca, 2)
+            u = r.choice(cb)
+            old = u.name
+            b.attrs.insert(1, ("affects", "%s:%s" % (pa, t.name)))
+            u.name = t.name
+            u.attrs = [(k, (t.name if k == "name" else v)) for k, v in u.attrs]
+            s.expected = [((p, t.name, c, sv) if (p == pb and n == old) else (p, n, c, sv)) for p, n, c, sv in s.expected]
+            forced = {pa: [b, t], pb: [u]}
     for path in s.order:
         blocks = s.blocks[path]
         touched = []
         for b in blocks:
-            if b.lines and r.random() < p:
+            if b.lines and r.random() < p and not any(a == "affects" for a, _ in b.attrs):
                 b.two_targets = r.random() < 0.3      # two unmodified targets: two diagnostics with the same range and code
                 b.attrs.insert(1, ("affects", (":ghost-%s, :spectre-%s" % (b.name, b.name)) if b.two_targets else ":ghost-" + b.name))
                 touched.append(b)
+        # satisfied links: a block that refers to another block of the same file which the diff touches too (no violation owed);
+        # the target keeps whatever rules it has
+        linked = list(forced.get(path, []))
+        cands = [b for b in blocks if b.lines and not b.glued_to_prev]
+        for b in cands:
+            if b not in touched and not any(a == "affects" for a, _ in b.attrs) and len(cands) >= 2 and r.random() < p * 0.6:
+                t = r.choice([c for c in cands if c is not b])
+                b.attrs.insert(1, ("affects", (":%s" % t.name) if r.random() < 0.5 else "%s:%s" % (path, t.name)))
+                linked += [b, t]
         opener = s.files[path].split(" ", 1)[0]
         s.files[path] = render_file(blocks, opener)
-        if not touched:
+        if not touched and not linked:
             continue
         diff.append("diff --git a/%s b/%s\n--- a/%s\n+++ b/%s\n" % (path, path, path, path))
         touched = [b for b in touched if not b.glued_to_prev]
-        for k, b in enumerate(touched):
+        in_diff = [b for b in blocks if b in touched or b in linked]
+        for k, b in enumerate(in_diff):
             n = b.tag_line + 1
             diff.append("@@ -%d,0 +%d,1 @@\n+%s\n" % (n - 1 - k, n, b.lines[0]))
+            if b not in touched:
+                continue
             sev = dict((a, v) for a, v in b.attrs).get("severity")
             sevn = {"error": 1, "warning": 2, "info": 3, "hint": 4}[(sev or "error").lower()]
             for _ in range(2 if b.two_targets else 1):
